@@ -18,6 +18,7 @@ VERUS_EXTRA = ['--no-trait-conflicts']
 
 HEADER = '''#![allow(unused_imports, unused_variables, dead_code, unused_mut, unused_parens, unused_braces)]
 use vstd::prelude::*;
+use vstd::std_specs::iter::IteratorSpec;
 verus! {
 
 global size_of usize == 8;
@@ -46,6 +47,26 @@ SET_GHOST = '''
     pub closed spec fn wf(&self) -> bool { self.map.wf() }
 '''
 
+ITER_DECL = '''
+// ---- shared iteration: `Iter` is declared by contract only (unit WB proves that the real `next` obeys the iterator-protocol laws in every
+// ---- state and that `iter()` yields exactly the entries in increasing key order)
+#[verifier::external_body]
+#[verifier::accept_recursive_types(V)]
+pub struct Iter<'a, V: Clone> { x: &'a V }
+impl<'a, V: Clone> Iter<'a, V> {
+    /// the items this iterator state will still yield, in order
+    pub uninterp spec fn rem(&self) -> Seq<(u32, V)>;
+}
+'''
+
+ITER_NEXT_DECL = '''
+impl<'a, V: Clone> Iterator for Iter<'a, V> {
+    type Item = (u32, &'a V);
+    #[verifier::external_body]
+    fn next(&mut self) -> Option<Self::Item> { unimplemented!() }
+}
+'''
+
 ENTRY_GHOST = '''
     // ghost accessors (the fields are private in the source)
     pub closed spec fn key(&self) -> u32 { self.key }
@@ -55,20 +76,21 @@ ENTRY_GHOST = '''
 EXEC_FUNCS = ['WBTreeMap::entry', 'Entry::or_insert', 'Entry::or_insert_with', 'OccupiedEntry::into_mut', 'OccupiedEntry::get_mut',
               'OccupiedEntry::remove', 'VacantEntry::insert',
               'WBTreeSet::new', 'WBTreeSet::insert', 'WBTreeSet::contains', 'WBTreeSet::remove', 'WBTreeSet::is_empty', 'WBTreeSet::len',
-              'WBTreeSet::clear', 'WBTreeSet::union', 'WBTreeSet::difference']
+              'WBTreeSet::clear', 'WBTreeSet::iter', 'WBTreeSet::union', 'WBTreeSet::difference', 'WBTreeSetIter::next']
 
-CORE_DECLS = ['new', 'insert', 'get', 'get_mut', 'contains_key', 'is_empty', 'len', 'clear', 'remove', 'union', 'difference']
+CORE_DECLS = ['new', 'insert', 'get', 'get_mut', 'contains_key', 'is_empty', 'len', 'clear', 'remove', 'union', 'difference', 'iter']
 
 DROPPED = ['bodies of the WBTreeMap core operations (contract-only here; proved or bounded-checked in unit WB)',
-           'WBTreeSet::iter, WBTreeSetIter, impl Debug for WBTreeSet', '#[derive(Clone)] on WBTreeMap (replaced by an assumed structural clone)']
+           'impl Debug for WBTreeSet', 'Iter and its impls (contract-only here: struct opaque, `next` assumed to obey the protocol laws -- both proved in unit WB)', '#[derive(Clone)] on WBTreeMap (replaced by an assumed structural clone)']
 
 ALLOW_TRUSTED = ['external_body fn clone', 'external_body struct WBTreeMap<V:', 'accept_recursive_types: #[verifier::accept_recursive_types(V)]', 'external_body fn union<F>', 'external_body fn difference<F>', 'global size_of: global size_of usize == 8;',
-                 'uninterp fn view', 'uninterp fn wf'] + ['external_body fn ' + n for n in CORE_DECLS]
+                 'uninterp fn view', 'uninterp fn wf', 'uninterp fn rem', 'external_body struct Iter<', 'external_body fn next', 'external_body fn iter<'] + ['external_body fn ' + n for n in CORE_DECLS]
 
 SAMPLES = [
     'WBTreeMap::entry(&mut self, key) -> e: Occupied(o) iff key present, o.key == key, o.map is self (prophecy: *final(o.map) == *final(self))',
     'VacantEntry::insert(self, value) -> r: ensures *r == value, final(self.map)@ == old(self.map)@.insert(self.key, *final(r))',
     'WBTreeSet::union(&self, other) -> r: ensures r@ == self@.union(other@)',
+    'WBTreeSet::iter() -> it: it.rem() strictly increasing, exactly the elements of the set; first item = minimum; WBTreeSetIter::next obeys the iterator-protocol laws in every state',
 ]
 
 
@@ -105,11 +127,14 @@ def emit(A, repo, canary=False):
         A.item(it)
 
     A.text(CORE_STRUCT, 'WBTreeMap declared opaque')
+    A.text(ITER_DECL, 'Iter declared opaque')
+    A.text(P['ITER_PROTOCOL'], 'IteratorSpecImpl for Iter (ghost; shared text annot/wbmap_api.py)')
+    A.text(ITER_NEXT_DECL, 'Iter::next assumed to obey the protocol laws (proved in unit WB)')
     MAP = src.item(r'impl<V: Clone> WBTreeMap<V>\s*\{', name='WBTreeMap')
     A.text(MAP.header(), 'impl WBTreeMap header (from source)')
     A.text(CORE_GHOST, 'WBTreeMap abstract view and invariant (uninterpreted here)')
     for fn in CORE_DECLS:
-        ret, spec = P['MAP_CORE'][fn]
+        ret, spec = P['MAP_ITER'] if fn == 'iter' else P['MAP_CORE'][fn]
         A.text(declaration(src.fn(fn, within=MAP), ret, spec), 'contract-only declaration of WBTreeMap::' + fn)
     it = src.fn('entry', within=MAP)
     it.sig(ret=P['MAP_ENTRY']['entry'][0], spec=P['MAP_ENTRY']['entry'][1])
@@ -129,8 +154,9 @@ def emit(A, repo, canary=False):
             it.sig(ret=ret, spec=spec)
             fin(it)
         A.text('}\n', 'impl close')
-    A.text('pub mod map { pub use super::{Entry, OccupiedEntry, VacantEntry, WBTreeMap}; }\n', 'path alias so that `map::Entry` resolves as in the source')
+    A.text('pub mod map { pub use super::{Entry, Iter, OccupiedEntry, VacantEntry, WBTreeMap}; }\n', 'path alias so that `map::Entry` resolves as in the source')
     # ---- set.rs
+    A.text(P['SET_VOCAB'], 'set vocabulary')
     A.item(ssrc.item(r'#\[derive\(Clone\)\]\s*pub struct WBTreeSet', name='WBTreeSet'))
     simp = ssrc.item(r'impl WBTreeSet\s*\{', name='WBTreeSet')
     A.text(simp.header(), 'impl WBTreeSet header (from source)')
@@ -152,9 +178,51 @@ def emit(A, repo, canary=False):
             it.tail('proof { assert(self.map@.dom() =~= old(self).map@.dom().%s(%svalue)); }' % (fn, '' if fn == 'insert' else '*'))
         if fn == 'clear':
             it.sig(prelude='')  # nothing
+        if fn == 'iter':
+            it.tail('''proof {
+            let m = r__.map_iter.rem();
+            assert forall|k: u32| #[trigger] self@.contains(k) implies exists|i: int| 0 <= i < r__.rem().len() && #[trigger] r__.rem()[i] == k by {
+                assert(self.map@.contains_key(k));
+                let i = choose|i: int| 0 <= i < m.len() && (#[trigger] m[i]).0 == k;
+                assert(r__.rem()[i] == k);
+            }
+            assert forall|i: int| 0 <= i < r__.rem().len() implies self@.contains(#[trigger] r__.rem()[i]) by { assert(self.map@.contains_key(m[i].0)); }
+            if r__.rem().len() > 0 {
+                assert(self@.contains(r__.rem()[0]));
+                assert forall|z: u32| self@.contains(z) implies r__.rem()[0] <= z by {
+                    let i = choose|i: int| 0 <= i < r__.rem().len() && #[trigger] r__.rem()[i] == z;
+                    if i > 0 { assert(m[0].0 < m[i].0); }
+                }
+            }
+        }''')
         fin(it)
     A.text('}\n', 'impl close')
-    A.text('pub mod set { pub use super::WBTreeSet; }\n', 'path alias')
+    # ---- WBTreeSetIter: the real struct, its real `next`, and the protocol view
+    A.item(ssrc.item(r"pub struct WBTreeSetIter<'a>", name='WBTreeSetIter'))
+    A.text("impl<'a> WBTreeSetIter<'a> {" + P['SETITER_GHOST'] + '}\n', 'WBTreeSetIter ghost members')
+    A.text(P['SETITER_PROTOCOL'], 'IteratorSpecImpl for WBTreeSetIter (ghost)')
+    sit = ssrc.item(r"impl<'a> Iterator for WBTreeSetIter<'a>\s*\{", name='WBTreeSetIter')
+    A.text(sit.header(), 'impl Iterator for WBTreeSetIter header (from source)')
+    A.item(ssrc.item(r'type Item = u32;', name='WBTreeSetIter::Item', within=sit))
+    it = ssrc.fn('next', within=sit, name='WBTreeSetIter::next')
+    it.closure('|(k, _)|', "|p0__: (u32, &'a ())| -> (cr: u32)", 'ensures cr == p0__.0,', pat_var='p0__')
+    it.tail('''proof {
+            let m0 = old(self).map_iter.rem(); let m1 = self.map_iter.rem();
+            assert(old(self).map_iter.remaining().len() == m0.len());
+            assert(self.map_iter.remaining().len() == m1.len());
+            if m0.len() > 0 {
+                assert forall|i: int| 0 <= i < m1.len() && self.map_iter.remaining() == old(self).map_iter.remaining().drop_first() implies m1[i].0 == m0[i + 1].0 by {
+                    assert(self.map_iter.remaining()[i] == old(self).map_iter.remaining().drop_first()[i]);
+                }
+                assert(self.map_iter.remaining() == old(self).map_iter.remaining().drop_first() ==> self.rem() =~= old(self).rem().drop_first());
+                assert(old(self).map_iter.remaining()[0].0 == m0[0].0);
+            } else {
+                assert(self.map_iter.remaining() == old(self).map_iter.remaining() ==> self.rem() =~= old(self).rem());
+            }
+        }''')
+    fin(it)
+    A.text('}\n', 'impl close')
+    A.text('pub mod set { pub use super::{WBTreeSet, WBTreeSetIter}; }\n', 'path alias')
 
 
 def build(repo, canary=False):
